@@ -79,6 +79,9 @@ class CHECK(Check):
         import itertools
         for fam in families.FAMILIES:
             yield {"kind": "fresh", "fam": fam}
+            # containers emptied completely (every element removed), then one of them is used again: the other must not change
+            for variant in ("append", "preppend", "read_then_empty"):
+                yield {"kind": "emptied", "fam": fam, "variant": variant}
         # complete: two registers of one class, 7-op alphabet, length <= 3
         fs = [{"k": "int", "size": 3, "start": 0}, {"k": "lit", "size": 3, "start": 3}]
         alpha = [[1, 0, " 12abc\n"], [1, 1, "  7 zz\n"], [2, 0], [2, 1], [4, 0, 0, ["int", 99]], [5, 0, 0, ["int", 5]], [3, 0, " 42 q \n"]]
@@ -260,11 +263,59 @@ class CHECK(Check):
             except Exception as e:
                 obs["raised"] = type(e).__name__ + ": " + str(e)[:80]
             return obs
+        if case["kind"] == "emptied":
+            return self.run_emptied(case)
         return self.run_graph(case)
 
+    @staticmethod
+    def run_emptied(case):
+        import itertools
+        F = families.get(case["fam"])
+        FC = type("WE" + case["fam"], (F["File"],), {F["list_attr"]: [], "__slots__": []})
+
+        def snapshot(f):
+            els = list(itertools.islice(iter(f.data), 50))
+            buf = io.StringIO()
+            f.write(buf)
+            return [len(els), [repr(getattr(e, "data", None))[:30] for e in els], buf.getvalue()]
+
+        def empty(f):
+            d = f.data
+            for _ in range(10):
+                if d.first is None:
+                    break
+                d.remove(d.first)
+        obs = {}
+        try:
+            with lib.budget(200000):
+                a = FC.read("x\ny\n") if case["variant"] == "read_then_empty" else FC()
+                b = FC()
+                empty(a)
+                empty(b)
+                obs["before"] = snapshot(b)
+                try:
+                    el = F["Default"](data="z\n")
+                    if case["variant"] == "preppend":
+                        a.data.preppend(el)
+                    else:
+                        a.data.append(el)
+                    obs["use_of_a"] = "ok"
+                except Exception as e:
+                    obs["use_of_a"] = type(e).__name__
+                obs["after"] = snapshot(b)
+                c = FC()
+                empty(c)
+                obs["third"] = snapshot(c)
+        except BaseException as e:
+            obs["raised"] = type(e).__name__ + ": " + str(e)[:80]
+        return obs
+
     # ---------------------------------------------------------------- model
+    def comparable(self, case):
+        return case["kind"] != "emptied"     # judged by the oracle only: the model has no emptied containers (C07's excluded call)
+
     def model_arg(self, case, fresh=True):
-        if case["kind"] == "fresh":
+        if case["kind"] in ("fresh", "emptied"):
             return [fresh, [], [[6], [6], [8, 0], [6]]]
         delims = case.get("delims") or [None] * len(case["lines"])
         lines = [[[[fl.field_sx(fd), []] for fd in fs], [], ([d] if d else []), False] for fs, d in zip(case["lines"], delims)]
@@ -277,6 +328,8 @@ class CHECK(Check):
         return [fresh, lines, ops]
 
     def model_obs(self, case, res):
+        if case["kind"] == "emptied":
+            return {}
         if case["kind"] == "fresh":
             last = res[-1][1]
             files = last[2]
@@ -324,6 +377,14 @@ class CHECK(Check):
 
     # ---------------------------------------------------------------- oracle: isolated replay of each object's own operations
     def oracle(self, case, obs):
+        if case["kind"] == "emptied":
+            if "raised" in obs:
+                return "emptying two files and using one of them raised: %s" % obs["raised"]
+            if obs["before"] != obs["after"]:
+                return "an emptied container changed because another emptied container was used (shared placeholder)"
+            if obs["third"][0] != obs["before"][0] or obs["third"][2] != obs["before"][2]:
+                return "a container emptied later differs from one emptied earlier (state accumulated across containers)"
+            return None
         if case["kind"] == "fresh":
             if "raised" in obs:
                 return "a file constructed without arguments cannot be used: %s" % obs["raised"]
@@ -445,14 +506,14 @@ class CHECK(Check):
         return {"kind": "graph", "lines": case["lines"], "delims": case.get("delims"), "ops": sub}, None
 
     def nontrivial(self, case, obs):
-        if case["kind"] == "fresh":
+        if case["kind"] in ("fresh", "emptied"):
             return True
         lines = [op[1] for op in case["ops"] if op[0] == 0]
         return len(lines) != len(set(lines)) and any(op[0] in (1, 4, 5) for op in case["ops"])
 
     def classify(self, case):
-        if case["kind"] == "fresh":
-            return {"fresh_" + case["fam"]: 1}
+        if case["kind"] in ("fresh", "emptied"):
+            return {case["kind"] + "_" + case["fam"]: 1}
         d = {"ops_%02d" % len(case["ops"]): 1, "lines_%d" % len(case["lines"]): 1}
         for op in case["ops"]:
             d["op_%d" % op[0]] = d.get("op_%d" % op[0], 0) + 1
